@@ -28,6 +28,23 @@ def resource_violations(out):
     return bad
 
 
+def leaked_units(out):
+    """Units are returned exactly once: when nothing is with an executor any more (the run returned, raised, or
+    ended with jobs waiting and nothing running), no unit may still be counted as used."""
+    s = out["scheduler"]
+    used = {k: v for k, v in s.limits_used.items() if v}
+    if not used:
+        return None
+    tr = out["tracer"]
+    if "result" in out or "deadlock" in out:
+        # a returned run may leave in-flight jobs of a caught failure (they hold their units legitimately)
+        holders = [tr.jobid[j.id] for j in tr.jobobj if getattr(j, "holds_limits", False)]
+        if holders:
+            return None
+        return used
+    return None
+
+
 class Check(PropertyCheck):
     id = "C08"
     module = "Props.C08"
@@ -83,6 +100,17 @@ class Check(PropertyCheck):
             o = sched.run_program(lambda: vm.call(spec), lim, rng, complete_prob=rng.choice([0.1, 0.5]))
             o["limits"] = lim
             runs.append(("pre-executor-reject", spec, o))
+        # a resource closed in the configuration (limit 0): a job asking for it must never be admitted (it waits; the
+        # controlled loop ends such a run as a deadlock), while jobs on other resources go on (seeded change C08d)
+        for i in range(4 if self.tier == "quick" else 40):
+            lim = {"r0": 0, "r1": rng.choice([1, 2])}
+            kids = [(f"zc{i}", "leaf", 0, (), {"limits": rng.choice([{"r0": 1}, {"r0": 1, "r1": 1}, ["r0"]])})]
+            kids += [(f"zo{i}_{j}", "leaf", j, (), {"limits": {"r1": 1}}) for j in range(rng.randint(1, 3))]
+            rng.shuffle(kids)
+            spec = (f"zn{i}", "list", 0, tuple(kids), None)
+            o = sched.run_program(lambda: vm.call(spec), lim, rng, complete_prob=rng.choice([0.1, 0.5]))
+            o["limits"] = lim
+            runs.append(("closed-resource", spec, o))
         nviol = 0
         for kind, spec, o in runs:
             bad = resource_violations(o)
@@ -97,6 +125,15 @@ class Check(PropertyCheck):
             self.findings.append(Finding(key, f"limits_used[{jobcheck.RES[r]}] = {u} outside [0, {lim}] at step {idx}",
                                          {"kind": kind, "spec": repr(spec), "limits": o["limits"], "step": idx,
                                           "used": u, "limit": lim, "double_released_jobs": twice}))
+        nleak = 0
+        for kind, spec, o in runs:
+            leak = leaked_units(o)
+            if leak:
+                nleak += 1
+                self.findings.append(Finding(f"leaked-units:{kind}", f"limits_used = {leak} although no job holds units any "
+                                             f"more (run ended: {[k for k in ('result', 'error', 'deadlock') if k in o]})",
+                                             {"kind": kind, "spec": repr(spec), "limits": o["limits"], "used": leak}))
+        self.stat("oracle", "runs_with_leak", nleak)
         self.stat("oracle", "runs", len(runs))
         self.stat("oracle", "runs_with_violation", nviol)
         expected = self.variant is not None and not self.variant["release_if_holds"]
